@@ -2,6 +2,5 @@ INIT Init
 NEXT Next
 CONSTANTS Level = 2
           Full = TRUE
-          Lanes = 64
 INVARIANT SpecSane
 CHECK_DEADLOCK FALSE
